@@ -2087,7 +2087,7 @@ def run(tier, seed, replay=None):
     ]
     rep.lean = lean_obligations(PROP, thorough=(tier == "thorough"))
     quick = tier == "quick"
-    n_circuits = dict(general=15, tp=12, pure=9) if quick else dict(general=250, tp=200, pure=120)
+    n_circuits = dict(general=15, tp=12, pure=9) if quick else dict(general=225, tp=185, pure=110)
     n_born = 3 if quick else 55
     n_scalar_rounds = 1 if quick else 6
     n_variant_rounds = 1 if quick else 8
